@@ -43,19 +43,22 @@ impl RequestHandler<Completion> for CompletionHandler {
                 {
                     line = source_file.file.source_line(source_line);
 
-                    // Only look at the line until the source_column
-                    if source_column <= line.len() && source_column > 0 {
-                        let (line, suffix) = line.split_at(source_column - 1);
+                    // Only look at the line until the source_column, which is a character column
+                    // (like the columns of the source map below) supplied by the client
+                    let chars = line.chars().collect::<Vec<_>>();
+                    if source_column <= chars.len() && source_column > 0 {
+                        let (prefix, suffix) = chars.split_at(source_column - 1);
 
                         // Are we autocompleting a dot?
-                        if suffix.starts_with('.') {
+                        if suffix.first() == Some(&'.') {
                             // Go back until the first non-identifer or dot character to determine the scope prefix
-                            let scope_at = line
-                                .rfind(|c: char| !c.is_alphanumeric() && c != '_' && c != '.')
+                            let scope_at = prefix
+                                .iter()
+                                .rposition(|c| !c.is_alphanumeric() && *c != '_' && *c != '.')
                                 .map(|pos| pos + 1)
                                 .unwrap_or_default();
-                            let (_, scope) = line.split_at(scope_at);
-                            nested_scope = Some(IdentifierPath::from(scope));
+                            let scope = prefix[scope_at..].iter().collect::<String>();
+                            nested_scope = Some(IdentifierPath::from(scope.as_str()));
                         }
                     }
                 }
